@@ -20,7 +20,7 @@ ASSUMPTIONS = [
     "tolerance 1e-9 relative to max(1,|P|)",
 ]
 TOL = 1e-9
-SAMPLE_SIZES = dict(quick=[2, 3, 5, 8], thorough=[2, 3, 4, 5, 7, 12, 40])
+SAMPLE_SIZES = dict(quick=[2, 3, 5, 8, 50], thorough=[2, 3, 4, 5, 7, 12, 40, 50, 99, 104])
 
 
 def bounds(tier):
@@ -272,6 +272,20 @@ def _grid(case, ctx, obj, model, desc, pts, scale, feats):
             for a, nm in enumerate('uvw'[:pd]):
                 if prev is None or prev[a] != ns[a]:
                     setattr(obj, 'sample_size_' + nm, ns[a])
+        if prev is None and ns == steps[0][1]:
+            # a partial evaluation (documented to load a segment) followed by evaluate() must give the whole grid again
+            half = [(lo, lo + (hi - lo) / 2) for lo, hi in doms]
+            try:
+                if pd == 1:
+                    obj.evaluate(start=float(half[0][0]), stop=float(half[0][1]))
+                elif pd == 2:
+                    obj.evaluate(start_u=float(half[0][0]), stop_u=float(half[0][1]), start_v=float(half[1][0]), stop_v=float(half[1][1]))
+                else:
+                    obj.evaluate(start_u=float(half[0][0]), stop_u=float(half[0][1]), start_v=float(half[1][0]), stop_v=float(half[1][1]),
+                                 start_w=float(half[2][0]), stop_w=float(half[2][1]))
+                obj.evaluate()
+            except Exception as e:
+                ctx.check('C01.grid.partial_then_full', False, rc, f, 'evaluate() after a partial evaluate()', repr(e))
         ep = obj.evalpts
         total = 1
         for n in ns:
